@@ -37,6 +37,14 @@ def _cell(sv):
     return fp[-1:] == ["data"] and "cells" in fp
 
 
+def _has(sv, pred):
+    if pred(sv):
+        return True
+    if isinstance(sv, (tuple, frozenset)):
+        return any(_has(x, pred) for x in sv if isinstance(x, (tuple, frozenset)))
+    return False
+
+
 def _won(p, e):
     for atom, tv, bev in cond_atoms(p):
         if atom == e.val:
@@ -86,7 +94,7 @@ def r08_1(ctx):
                     ok = op.startswith("compare_exchange") and len(e.args) >= 2
                     exp_empty = ok and isinstance(e.args[0], tuple) and e.args[0][0] == "obj" and e.args[0][1].endswith("marked_ptr") and e.args[0][2] == ()
                     newv = e.args[1] if ok else None
-                    new_is_val = ok and isinstance(newv, tuple) and newv[0] == "obj" and len(newv[2]) == 1 and sv_mentions(newv[2][0], lambda s: isinstance(s, tuple) and s[:1] == ("p",) and s[-1] == "val")
+                    new_is_val = ok and isinstance(newv, tuple) and newv[0] == "obj" and len(newv[2]) == 1 and _has(newv[2][0], lambda s: isinstance(s, tuple) and s[:1] == ("p",) and s[-1] == "val")
                     ctx.check(bool(exp_empty), "R08.1", F, "enqueue writes a cell only by a CAS whose expected value is the empty cell", e.node, detail=R, sig="enqueue-from-empty")
                     ctx.check(bool(new_is_val), "R08.1", F, "enqueue's CAS installs exactly the pushed item (unmarked)", e.node, detail=R, sig="enqueue-installs-val")
                     continue
@@ -103,7 +111,7 @@ def r08_1(ctx):
                     ctx.check(nonnull is True and unmarked is False, "R08.1", F, "do_dequeue marks a cell only when it holds a live item (non-null, deleted bit clear)", e.node,
                               detail=R, sig="dequeue-live-only")
                     pub = any(x.kind == "call" and x.q and x.q.endswith("Guard::assign") and x.args and any(y.kind == "call" and y.val == x.args[-1] and y.obj == exp and y.q.endswith("marked_ptr::ptr") for y in ev[:i])
-                              and sv_mentions(x.obj, lambda s: isinstance(s, tuple) and s[:1] == ("p",) and s[-1] == "itemGuard") for x in ev[:i])
+                              and _has(x.obj, lambda s: isinstance(s, tuple) and s[:1] == ("p",) and s[-1] == "itemGuard") for x in ev[:i])
                     ctx.check(pub, "R08.1", F, "the item is published in the caller's guard before the CAS that takes it", e.node,
                               detail="dequeue() returns the guard's content. " + R, sig="dequeue-guarded")
                     continue
@@ -158,13 +166,23 @@ def r08_3(ctx):
     n = 0
     for F in ctx.need("cds::intrusive::SegmentedQueue::do_dequeue"):
         # the 'saw an empty cell' flag is set only where the loaded cell was null
+        allp = PathSim(F, bound=4000).run()
         for b, i, e in F.all_elements():
             if e.get("k") == "bin" and e.get("op") == "=" and "bHadNullValue" in F.text(F.deref(e["lhs"])):
-                n += 1
-                conds = Q.guard_conditions(F, e["_site"])
-                ok = any(("ptr()" in text) and ((outcome and "!" in text) or (not outcome and "!" not in text)) for cond, outcome, text, bb in conds)
-                ctx.check(ok, "R08.3", F, "the empty-cell flag is set only when the scanned cell held no item", e, detail=R, sig="flag-on-null")
-        for p in PathSim(F, bound=4000).run():
+                site = e["_site"]
+                for p in allp:
+                    ev = p.events
+                    if site[0] not in p.blocks:
+                        continue
+                    n += 1
+                    # last 'item.ptr()' decision taken before the assignment's block is entered
+                    res = None
+                    for atom, tv, bev in cond_atoms(p):
+                        if bev.site is not None and p.blocks.index(bev.site[0]) < p.blocks.index(site[0]) and _is_call(atom, "marked_ptr::ptr") and \
+                                any(x.kind == "call" and x.val == atom and _is_call(x.obj, "::load") for x in ev):
+                            res = tv
+                    ctx.check(res is False, "R08.3", F, "the empty-cell flag is set only when the scanned cell held no item", e, detail=R, sig="flag-on-null")
+        for p in allp:
             ev = p.events
             cas = [e for e in ev if e.kind == "call" and (atomic_op(e) or "").startswith("compare_exchange") and e.obj is not None and _cell(e.obj)]
             if p.outcome == "return" and p.ret == C(1):
@@ -197,7 +215,7 @@ def r08_3(ctx):
                     ctx.check(_scan_done(p, i) and flag is False, "R08.3", F, "the head segment is removed only after a complete scan found every cell dequeued (no empty, no live cell)",
                               e.node, detail=R, sig="remove-head-after-exhausted")
                     seg = e.args[0] if e.args else None
-                    ctx.check(seg is not None and any(x.kind == "call" and atomic_op(x) == "load" and x.obj is not None and _cell(x.obj) and sv_mentions(x.obj, lambda s: s == seg) for x in ev[:i]),
+                    ctx.check(seg is not None and any(x.kind == "call" and atomic_op(x) == "load" and x.obj is not None and _cell(x.obj) and _has(x.obj, lambda s: s == seg) for x in ev[:i]),
                               "R08.3", F, "remove_head is given the segment that was scanned", e.node, detail=R, sig="remove-scanned")
     for F in ctx.db.funcs.values():
         if not re.match(SQ + r"(dequeue|clear_with)$", F.q):
@@ -210,7 +228,10 @@ def r08_3(ctx):
                     dq = [x for x in ev[:i] if x.kind == "call" and x.q and x.q.endswith("::do_dequeue")]
                     ctx.check(bool(dq) and _won(p, dq[-1]) is True, "R08.3", F, "the guard's item is used only when do_dequeue() reported success", e.node, detail=R, sig="item-on-success")
                     if dq:
-                        ctx.check(e.obj is not None and dq[-1].args and noepoch(strip_sv(e.obj)) == noepoch(strip_sv(dq[-1].args[0])), "R08.3", F,
+                        g = dq[-1].args[0] if dq[-1].args else None
+                        same = e.obj is not None and g is not None and (noepoch(strip_sv(e.obj)) == noepoch(strip_sv(g)) or
+                                                                        (isinstance(e.obj, tuple) and e.obj[:1] == ("out",) and str(e.obj[2]).endswith("::do_dequeue")))
+                        ctx.check(same, "R08.3", F,
                                   "the returned item comes from the guard do_dequeue() filled", e.node, sig="item-same-guard")
             if F.q.endswith("::dequeue") and p.outcome == "return":
                 dq = [x for x in ev if x.kind == "call" and x.q and x.q.endswith("::do_dequeue")]
@@ -249,8 +270,8 @@ def r08_4(ctx):
                         same = None
                         for atom, tv, bev in cond_atoms(p):
                             if ev.index(bev) < i and isinstance(atom, tuple) and atom[0] == "op" and atom[1] in ("!=", "==") and \
-                                    sv_mentions(atom, lambda s: isinstance(s, tuple) and s[:1] == ("p",) and s[-1] == "pHead") and \
-                                    sv_mentions(atom, lambda s: _is_call(s, "::front")):
+                                    _has(atom, lambda s: isinstance(s, tuple) and s[:1] == ("p",) and s[-1] == "pHead") and \
+                                    _has(atom, lambda s: _is_call(s, "::front")):
                                 same = (tv is False) if atom[1] == "!=" else (tv is True)
                         ctx.check(same is True, "R08.4", F, "remove_head pops the front segment only when it is the segment the caller scanned", e.node,
                                   detail="otherwise a segment that still holds live items is dropped. " + R, sig="pop-scanned-head")
@@ -270,7 +291,7 @@ def r08_4(ctx):
                     stale = None
                     for atom, tv, bev in cond_atoms(p):
                         if ev.index(bev) < i and isinstance(atom, tuple) and atom[0] == "op" and atom[1] in ("!=", "==") and \
-                                sv_mentions(atom, lambda s: isinstance(s, tuple) and s[:1] == ("p",) and s[-1] == "pTail") and sv_mentions(atom, lambda s: _is_call(s, "::back")):
+                                _has(atom, lambda s: isinstance(s, tuple) and s[:1] == ("p",) and s[-1] == "pTail") and _has(atom, lambda s: _is_call(s, "::back")):
                             stale = (tv is True) if atom[1] == "!=" else (tv is False)
                     empty = None
                     for atom, tv, bev in cond_atoms(p):
@@ -280,7 +301,7 @@ def r08_4(ctx):
                               e.node, detail="otherwise two threads that both found the tail full each append a segment. " + R, sig="alloc-current-tail")
             if name == "create_tail" and any(e.kind == "call" and e.q and e.q.endswith("::allocate_segment") for e in ev) and p.outcome == "return":
                 al = [e for e in ev if e.kind == "call" and e.q and e.q.endswith("::allocate_segment")][0]
-                pb = [e for e in ev if e.kind == "call" and e.q and e.q.endswith("::push_back") and e.args and sv_mentions(e.args[0], lambda s: s == al.val)]
+                pb = [e for e in ev if e.kind == "call" and e.q and e.q.endswith("::push_back") and e.args and _has(e.args[0], lambda s: s == al.val)]
                 st = [e for e in ev if e.kind == "call" and atomic_op(e) == "store" and sv_field_path(e.obj)[-1:] == ["m_pTail"] and e.args and e.args[0] == al.val]
                 ctx.check(bool(pb) and bool(st), "R08.4", F, "the new segment is appended to the list and published as the tail", al.node, detail=R, sig="new-segment-linked")
                 ga = [e for e in ev if e.kind == "call" and e.q and e.q.endswith("Guard::assign") and e.args and e.args[-1] == al.val]
@@ -291,10 +312,34 @@ def r08_4(ctx):
     for F in ctx.need("cds::intrusive::SegmentedQueue::segment_list::allocate_segment"):
         for c in Q.calls_in(F, r"::NewBlock$"):
             n += 1
-            t = F.text(c)
-            ctx.check(re.search(r"sizeof\s*\(\s*segment\s*\)\s*\+\s*sizeof\s*\(\s*cell\s*\)\s*\*\s*(this->)?m_nQuasiFactor", t) is not None, "R08.4", F,
-                      "a segment block has room for quasi-factor cells after the header", c, detail=R, sig="alloc-size")
-            ctx.check(re.search(r",\s*(this->)?(quasi_factor\(\)|m_nQuasiFactor)\s*\)$", t.strip()) is not None, "R08.4", F, "the segment initialises quasi-factor cells", c, detail=R, sig="alloc-count")
+            a = [F.deref(x) for x in c.get("args", [])]
+
+            def strip(x):
+                for _ in range(6):
+                    x = F.deref(x)
+                    if isinstance(x, dict) and x.get("k") in ("w", "cast"):
+                        x = x["sub"]
+                    else:
+                        break
+                return x
+
+            def is_q(x):
+                x = strip(x)
+                return isinstance(x, dict) and ((x.get("k") == "member" and x.get("n") == "m_nQuasiFactor") or (x.get("k") == "call" and (x.get("q") or "").endswith("::quasi_factor")))
+
+            def szof(x, what):
+                x = strip(x)
+                return isinstance(x, dict) and x.get("k") == "sizeof" and (x.get("st") is None or re.search(what, x["st"]) is not None)
+            sz = strip(a[0]) if a else None
+            ok = isinstance(sz, dict) and sz.get("k") == "bin" and sz.get("op") == "+"
+            if ok:
+                l, r = strip(sz["lhs"]), strip(sz["rhs"])
+                if szof(r, r"segment$"):
+                    l, r = r, l
+                ok = szof(l, r"segment$") and isinstance(r, dict) and r.get("k") == "bin" and r.get("op") == "*" and \
+                    ((szof(r["lhs"], r"cell$|atomic|padding") and is_q(r["rhs"])) or (szof(r["rhs"], r"cell$|atomic|padding") and is_q(r["lhs"])))
+            ctx.check(bool(ok), "R08.4", F, "a segment block has room for quasi-factor cells after the header (sizeof(segment) + sizeof(cell) * quasi factor)", c, detail=R, sig="alloc-size")
+            ctx.check(len(a) >= 2 and is_q(a[1]), "R08.4", F, "the segment initialises exactly quasi-factor cells", c, detail=R, sig="alloc-count")
     for F in ctx.need("cds::intrusive::SegmentedQueue::SegmentedQueue"):
         ok = False
         for b, i, e in F.all_elements():
